@@ -14,9 +14,15 @@ Theorem C02_construct_reads_nothing : forall (I O : Type) (m : machine I O) (E :
 Proof. exact (@run_zero). Qed.
 Print Assumptions C02_construct_reads_nothing.
 
-Theorem C02_model_constructs_lazily : forall ds : list srcd, ctrace false ds = [].
+Theorem C02_model_constructs_lazily : forall ds : list srcd, ctrace CLazy ds = [].
 Proof. exact model_constructs_lazily. Qed.
 Print Assumptions C02_model_constructs_lazily.
+
+(* construction in the model: nothing is touched, a refused call raises without touching anything, and the only
+   construction-time reads are the documented prefix (at most n items of the parameter source, nothing else) *)
+Theorem C02_model_construction_ok : forall (ck : ckind) (ds : list srcd), ck <> CEager -> ctor_ok ck (ctrace ck ds) = true.
+Proof. exact model_ctor_ok. Qed.
+Print Assumptions C02_model_construction_ok.
 
 (* ------------------------------------------------------------------ the two transfer principles *)
 (* A step-closed invariant ([safe]) bounds the reads of EVERY run: any environment (finite, endless,
@@ -128,6 +134,16 @@ Theorem C02_mresample_tv_bounded : forall (A B : Type) (o : B) (n0 : nat) (idx0 
   safe c (need_resample_tv c n0 idx0 thr stp one) (@mresample_tv A B o n0 idx0 thr stp one).
 Proof. exact (@mresample_tv_safe). Qed.
 Print Assumptions C02_mresample_tv_bounded.
+
+(* attack(a, d, sustain stream): one item of look-ahead (the decay target) at the first demand, then one item per
+   output after the n = len_a + len_d samples of the two lines; exact and productive on an endless sustain *)
+Theorem C02_mattack_bounded : forall (A : Type) (o : A) (n : nat) (c : nat -> bool), safe c (need_attack n) (mattack o n).
+Proof. exact (@mattack_safe). Qed.
+Print Assumptions C02_mattack_bounded.
+Theorem C02_mattack_need : forall (A : Type) (o : A) (n : nat) (c : nat -> bool), c 0 = true ->
+  live c (need_attack n) (mattack o n) 2.
+Proof. exact (@mattack_live). Qed.
+Print Assumptions C02_mattack_need.
 
 Theorem C02_mcycle_bounded : forall (A : Type) (c : nat -> bool), safe c need_id (@mcycle A).
 Proof. exact (@mcycle_safe). Qed.
